@@ -102,7 +102,8 @@ CHECKS = {
         text="The complete grid of cardinality settings x previous setting x child counts 0..5 x three kinds x three "
              "routes is executed on real objects and compared with a three-valued reference normaliser (MUST / "
              "MUST-RAISE / EITHER); the warning-iff-outside-range rule is checked for every cell and after every step "
-             "of all histories of <=4 (quick) / <=5 (thorough) set/add/remove/clear steps; every normal-form cardinality "
+             "of all histories of <=4 (quick) / <=6 (thorough) set/add/remove/clear/add-a-child-of-the-other-kind steps, Sections also carrying "
+             "children of the kind that is not counted; every normal-form cardinality "
              "with bounds <=3 is saved and reloaded in XML, JSON, YAML through string, file and odml.save/load.",
         design="DESIGN.md C09"),
     "C10": dict(
@@ -113,7 +114,7 @@ CHECKS = {
         text="Value lists of length <=2 over the atoms of every dtype (incl. n-tuples, 10**20, 1/3, quotes/newlines/non-ASCII) plus "
              "lists of 10 and 12 values, every RDF-carried attribute x every text atom (uncertainty incl. 0), all forests with <=3/4 "
              "Sections, lists of 1-3 documents with default-mapped, unmapped and custom-mapped Section types; x {xml, nt, json-ld, "
-             "turtle, n3} x sub-classing on/off/custom x {get_rdf_str/from_string, write_file/from_file, odml.save/ODMLReader}: the "
+             "turtle, n3} x sub-classing on/off/custom x {get_rdf_str/from_string, write_file/from_file, odml.save/ODMLReader, one writer object asked twice}: the "
              "writer's graph and the re-parsed text satisfy the shape (one Hub, nodes named by id, one rdf:type, exactly the set "
              "attributes with typed values, child edges, one rdf:Seq with members 1..n in order); the import returns the same "
              "documents modulo sibling order; exporting changes nothing.",
@@ -135,7 +136,8 @@ CHECKS = {
                   "finalize/clean/save/load history against an independent resolver and snapshot algebra",
         text="Every ordered forest with <=5 (quick) / <=6 (thorough) Sections, with document-unique names and with Section "
              "names that repeat across parallel branches, x every admissible (linker, target) pair x {absolute, relative, "
-             "./relative} path x own-children variants x {link, include with and without #path}; all non-nested placements "
+             "./relative} path x own-children variants (incl. a target whose Property and sub-Section share a name; every third Section empty) x {link, "
+             "include with and without #path}; all non-nested placements "
              "of two links; each followed by finalize, clean, finalize, finalize, clean, clean, save+load (XML, JSON), "
              "finalize on the real classes: copies only, nothing outside the linker changes, clean restores, the stored "
              "reference still designates the target (compared by resolution through ref/paths.py).",
@@ -145,8 +147,8 @@ CHECKS = {
         category="model_checking",
         technique="deviation-bounded exhaustive enumeration of (dest, src) tree pairs against a reference merge model",
         text="A compatible depth-2 baseline pair with matched, dest-only and src-only children on every level, deviated by "
-             "every single variation and every pair of variations (172 variations: attribute state per attribute and "
-             "location, uncertainty value pairs incl. 0, dtype/value relations, Section type clashes at each depth) x "
+             "every single variation and every pair of variations (181 variations; triples over every third, thorough: attribute state per attribute and "
+             "location, uncertainty value pairs incl. 0, dtype/value relations, Section type clashes at each depth, a Property named like a sibling Section in dest / src / both) x "
              "orders of the source's children x strict on/off, merged by the real Section.merge; ref/merge.py decides "
              "MUST-RAISE / MAY-RAISE / MUST-SUCCEED and checks every postcondition clause and all-or-nothing.",
         design="DESIGN.md C13"),
@@ -155,8 +157,8 @@ CHECKS = {
         category="model_checking",
         technique="exhaustive enumeration of all small trees and name assignments against an independent resolver / BFS",
         text="All ordered forests with <=5 (quick) / <=6 (thorough) Sections x all sibling-unique assignments of the names "
-             "{a, ab, a.b, b}: every absolute path from the Document and from every Section, every ordered pair for relative "
-             "paths, every start x max_depth x yield_self x filter for itersections/iterproperties/itervalues (exact "
+             "{a, ab, a.b, b, A} (prefixes, a dot, a pair differing only in case; every third Section empty, i.e. falsy): every absolute path from the Document and from every Section, every ordered pair for relative "
+             "paths (the library's own, './' + path, and a detour through every child Section), every start x max_depth x yield_self x filter for itersections/iterproperties/itervalues (exact "
              "breadth-first sequence by identity), find/find_related over keys x types x all 32 flag combinations "
              "(trees <=4/5), plus four large deterministic trees; compared with ref/paths.py.",
         design="DESIGN.md C14"),
@@ -179,10 +181,10 @@ CHECKS = {
         category="model_checking",
         technique="bounded-exhaustive enumeration of reader inputs (all short strings, grammar trees, every single structural "
                   "mutation of seed files, dictionary mutations) against an outcome invariant",
-        text="(a) all 66 430 strings of length <=5 (quick) / 597 871 of length <=6 (thorough) over {< > / a \" = space & [}, bare and "
+        text="(a) all 66 430 strings of length <=5 (quick) / 5 380 840 of length <=7 (thorough) over {< > / a \" = space & [}, bare and "
              "inside a valid odML frame; (b) 4 912 grammar documents: every odML / unknown / upper-case element under the root, every "
-             "pair of children of a Section and of a Property x text variants per slot (unparsable ids, dates, cardinalities, values, "
-             "dtypes), value x dtype x cardinality, duplicate names and ids, link/include combinations, XML attributes, PIs, comments, "
+             "pair of children of a Section and of a Property x text variants per slot (unparsable ids, dates, cardinalities incl. Unicode digits, values incl. one of 140 000 "
+             "characters, dtypes), value x dtype x cardinality, duplicate names and ids, link/include combinations, XML attributes, PIs, comments, "
              "CDATA, entities, namespaces, declarations, versions; (c) every single mutation (delete, duplicate, re-tag x10, swap, "
              "move under every node, 8 texts, attribute) of every node of three seed files (2 163 inputs; pairs on one seed, "
              "thorough); (d) 571 dictionary mutations through DictReader and as JSON/YAML text through ODMLReader; x strict/lenient x "
@@ -209,12 +211,12 @@ CHECKS = {
         category="model_checking",
         technique="stateless model checking of the real loader code on real threads under a baton-passing scheduler, "
                   "iterative preemption bounding (all schedules with <=2 quick / <=3 thorough preemptions)",
-        text="Ten caller scenarios (same URL twice, chain, two deferred loads racing for an included URL, diamond, missing / "
-             "unparsable resource directly and through an include, object API include/repository/terminology equivalents, "
+        text="Fourteen caller scenarios (same URL twice, chain, two and three deferred loads racing for included URLs, diamond, missing / "
+             "unparsable / undecodable resource directly and through an include, refresh of an included resource, object API include/repository/terminology equivalents, "
              "refresh during a deferred load, clone_section) x cache {empty, warm, stale with changed source, stale with "
              "removed source} x {Terminologies, TemplateHandler}: every interleaving of the caller and the loader threads at "
              "every access to the loaded/loading tables, the reload flag and at thread start (before/after), join and exit, "
-             "up to the preemption bound, is executed; per execution the caller's observations at return time are compared "
+             "up to the preemption bound (the five smallest scenarios: every interleaving, no bound), is executed; per execution the caller's observations at return time are compared "
              "with an independent resolution of the resource files, identity of later loads, no exception, no deadlock, "
              "cache directory clauses, and all schedules of a variant must give the same observations.",
         design="DESIGN.md 2.6, C18"),
@@ -226,10 +228,11 @@ CHECKS = {
         text="Every sequence of <=3 (quick: depth 2 over 33 events, depth 3 over 17) / <=4 (thorough) events - default "
              "validations of Document/Section/Property, report(), re-run, custom reset=True instances with marker rules "
              "in both constructor forms, object creation attached/detached/with cardinalities, cardinality setters, "
-             "saves and loads in XML/JSON/YAML - over six documents (valid, warnings, cardinalities, deep, errors, "
-             "empty); after the last event: registry identical to import time, validated objects unchanged, default "
+             "saves and loads in XML/JSON/YAML - in-place value edits - over seven documents (valid, warnings, cardinalities, deep, errors, "
+             "empty, one naming a repository); after the last event: registry identical to import time, validated objects unchanged, default "
              "validation equals that of a twin that only saw the editing events, repeats identically, custom "
-             "instances report exactly their own rules (also when re-run). The saved family is validated in 4 (12) "
+             "instances report exactly their own rules (also when re-run), the live document validates like a copy written out "
+             "and read back. The saved family is validated in 4 (12) "
              "child processes with different PYTHONHASHSEED and the issue multisets compared.",
         design="DESIGN.md C19, 10.1"),
     "C20": dict(
@@ -240,7 +243,7 @@ CHECKS = {
         text="Six document sets (1-3 documents, Sections on two levels, attribute values from a two-letter pool) exported without "
              "sub-classing x every query of <=2 (quick) / <=3 (thorough) attribute/value pairs of one kind over all RDF-model "
              "attributes incl. id, date, uncertainty (values present or absent) + multi-kind queries (Doc+Sec, Sec+Prop, "
-             "Doc+Sec+Prop) x string and dictionary parameters, each chunk of queries run forwards and backwards in one process, + "
+             "Doc+Sec+Prop) x string and dictionary parameters, each chunk of queries run forwards and backwards in one process, one finder object re-used on another graph, + "
              "fuzzy queries: for every non-empty combination of the given pairs the finder reports it iff the reference result "
              "is non-empty, with exactly the reference rows, ordered most specific first; nothing raises.",
         design="DESIGN.md C20"),
